@@ -29,6 +29,8 @@
 
 #include <sys/socket.h>
 #include <sys/un.h>
+#include <netinet/in.h>
+#include <arpa/inet.h>
 #include <sys/stat.h>
 #include <sys/types.h>
 #include <fcntl.h>
@@ -1122,9 +1124,31 @@ static void cmd_reload (void)
   ob_printf (&out, "OK it=%ld", pump (pump_budget));
 }
 
+static int tcp_port;      /* != 0: the next raw_connect goes to 127.0.0.1:<port> (a <listen>tcp:...</listen> of the bus) */
+
 static int raw_connect (unsigned long uid)
 {
   struct sockaddr_un sa; int fd; int slot;
+  if (tcp_port)
+    {
+      struct sockaddr_in si; int port = tcp_port, i;
+      tcp_port = 0;
+      slot = nclients;
+      if (nclients >= MAX_CLIENTS)
+        {
+          for (slot = 0; slot < MAX_CLIENTS; slot++) if (!clients[slot].open) break;
+          if (slot >= MAX_CLIENTS) { errno = EMFILE; return -1; }
+        }
+      fd = socket (AF_INET, SOCK_STREAM | SOCK_CLOEXEC, 0);
+      if (fd < 0) return -1;
+      memset (&si, 0, sizeof si);
+      si.sin_family = AF_INET; si.sin_port = htons ((unsigned short) port); si.sin_addr.s_addr = htonl (INADDR_LOOPBACK);
+      if (connect (fd, (struct sockaddr *) &si, sizeof si) < 0) { int e = errno; close (fd); errno = e; return -1; }
+      i = fcntl (fd, F_GETFL); fcntl (fd, F_SETFL, i | O_NONBLOCK);
+      clients[slot].fd = fd; clients[slot].open = 1; clients[slot].nodrain = 0;
+      if (slot == nclients) nclients++;
+      return slot;
+    }
   /* reuse the slot of a closed client when the table is full */
   slot = nclients;
   if (nclients >= MAX_CLIENTS)
@@ -1161,7 +1185,9 @@ static ssize_t read_some (int c, char *tmp, size_t cap)
 /* RAWCONNECT <uid> -> client index, nothing written */
 static void cmd_rawconnect (int argc, char **argv)
 {
-  int c = raw_connect (argc > 1 ? strtoul (argv[1], NULL, 10) : 0);
+  int c;
+  if (argc > 2 && !strncmp (argv[2], "tcp:", 4)) tcp_port = atoi (argv[2] + 4);      /* RAWCONNECT <uid> tcp:<port> */
+  c = raw_connect (argc > 1 ? strtoul (argv[1], NULL, 10) : 0);
   if (c < 0) { ob_printf (&out, "ERR connect: %s", strerror (errno)); return; }
   pump (1000);
   ob_printf (&out, "OK %d", c);
